@@ -4,14 +4,16 @@ package deviceshare
 
 // C19 / stream "dev": the deviceshare plugin's per-node device ledger across a scheduler restart.
 //
-// input:  nodes minors t1a t1b t2a t2b devFirst
+// input:  nodes minors t1a t1b t2a t2b devFirst nvf
 //         P then per object (uid = position):  kind node G  then per group: type k (minor a b)*k
+//             then VG then per VF group: type k (minor*100+index)*k   (virtual functions of that type's allocation)
 //             type 1 = gpu (a = gpu-core, b = gpu-memory-ratio), type 2 = rdma (a = rdma, b unused)
 //         K live steps (kind uid): 1 Reserve 2 Unreserve 3 PreBind+bind+update 4 delete 5 update(same) 7 terminate
 //         S replay events (kind id): 1 Add 2 Update(obj,obj) 3 Update(pending,obj) 4 Device object of node id arrives
 // observable after every live step, for the LIVE plugin then for a FRESH plugin fed with the stored
 // objects: per node, per type, per minor: used a b, free a b (getNodeDeviceSummary); then per uid per
-// type the allocateSet entry ( 0 | 1 k (minor a b)*k ).
+// type the allocateSet entry ( 0 | 1 k (minor a b)*k ); then per type, per minor, per VF index 0..nvf-1:
+// 1 if the virtual function is in nodeDevice.vfAllocations.
 
 import (
 	"context"
@@ -44,7 +46,10 @@ type vtC19DGroup struct {
 type vtC19DDesc struct {
 	kind, node int64
 	groups     []vtC19DGroup
+	vfs        map[int64][]int64 // type -> codes minor*100+index
 }
+
+func vtC19DBusID(minor, idx int64) string { return fmt.Sprintf("m%02d-vf%02d", minor, idx) }
 
 func vtC19DNode(n int64) string { return fmt.Sprintf("n%02d", n) }
 
@@ -68,7 +73,7 @@ func vtC19DPair(t int64, rl corev1.ResourceList) (int64, int64) {
 	return a.Value(), 0
 }
 
-func vtC19DDevice(node string, minors int64, tot [3][2]int64) *schedulingv1alpha1.Device {
+func vtC19DDevice(node string, minors, nvf int64, tot [3][2]int64) *schedulingv1alpha1.Device {
 	d := &schedulingv1alpha1.Device{ObjectMeta: metav1.ObjectMeta{Name: node}}
 	for t := int64(1); t <= 2; t++ {
 		for m := int64(0); m < minors; m++ {
@@ -76,8 +81,16 @@ func vtC19DDevice(node string, minors int64, tot [3][2]int64) *schedulingv1alpha
 			if t == 1 {
 				res[apiext.ResourceGPUMemory] = *resource.NewQuantity(16<<30, resource.BinarySI)
 			}
-			d.Spec.Devices = append(d.Spec.Devices, schedulingv1alpha1.DeviceInfo{
-				Type: vtC19DTypes[t], Minor: ptr.To(int32(m)), UUID: fmt.Sprintf("dev-%d-%d", t, m), Health: true, Resources: res})
+			info := schedulingv1alpha1.DeviceInfo{
+				Type: vtC19DTypes[t], Minor: ptr.To(int32(m)), UUID: fmt.Sprintf("dev-%d-%d", t, m), Health: true, Resources: res}
+			if t == 2 && nvf > 0 {
+				var vfs []schedulingv1alpha1.VirtualFunction
+				for i := int64(0); i < nvf; i++ {
+					vfs = append(vfs, schedulingv1alpha1.VirtualFunction{Minor: int32(i), BusID: vtC19DBusID(m, i)})
+				}
+				info.VFGroups = []schedulingv1alpha1.VirtualFunctionGroup{{Labels: map[string]string{"type": "general"}, VFs: vfs}}
+			}
+			d.Spec.Devices = append(d.Spec.Devices, info)
 		}
 	}
 	return d
@@ -165,7 +178,7 @@ func (i *vtC19DInst) onDelete(o vtC19DObj) {
 	}
 }
 
-func vtC19DSnapshot(obs []int64, inst *vtC19DInst, nodes, minors int64, keys []string) []int64 {
+func vtC19DSnapshot(obs []int64, inst *vtC19DInst, nodes, minors, nvf int64, keys []string) []int64 {
 	for n := int64(1); n <= nodes; n++ {
 		sum, ok := inst.plg.getNodeDeviceSummary(vtC19DNode(n))
 		if !ok {
@@ -197,6 +210,22 @@ func vtC19DSnapshot(obs []int64, inst *vtC19DInst, nodes, minors int64, keys []s
 				}
 			}
 		}
+		info := inst.plg.nodeDeviceCache.getNodeDevice(vtC19DNode(n), false)
+		for t := int64(1); t <= 2; t++ {
+			for m := int64(0); m < minors; m++ {
+				for i := int64(0); i < nvf; i++ {
+					taken := false
+					if info != nil {
+						info.lock.RLock()
+						if va := info.vfAllocations[vtC19DTypes[t]]; va != nil {
+							taken = va.allocatedVFs[int(m)].Has(vtC19DBusID(m, i))
+						}
+						info.lock.RUnlock()
+					}
+					obs = append(obs, vtB(taken))
+				}
+			}
+		}
 	}
 	return obs
 }
@@ -215,6 +244,7 @@ func vtC19DevExec(in []int64) []int64 {
 	var tot [3][2]int64
 	tot[1][0], tot[1][1], tot[2][0], tot[2][1] = next(), next(), next(), next()
 	devFirst := next()
+	nvf := next()
 	np := int(next())
 	descs := make([]*vtC19DDesc, np+1)
 	for u := 1; u <= np; u++ {
@@ -225,6 +255,13 @@ func vtC19DevExec(in []int64) []int64 {
 				grp.entries = append(grp.entries, [3]int64{next(), next(), next()})
 			}
 			d.groups = append(d.groups, grp)
+		}
+		d.vfs = map[int64][]int64{}
+		for g := next(); g > 0; g-- {
+			t := next()
+			for k := next(); k > 0; k-- {
+				d.vfs[t] = append(d.vfs[t], next())
+			}
 		}
 		descs[u] = d
 	}
@@ -245,7 +282,7 @@ func vtC19DevExec(in []int64) []int64 {
 	devIndexer := suit.koordinatorSharedInformerFactory.Scheduling().V1alpha1().Devices().Informer().GetIndexer()
 	devices := make([]*schedulingv1alpha1.Device, nodes+1)
 	for n := int64(1); n <= nodes; n++ {
-		devices[n] = vtC19DDevice(vtC19DNode(n), minors, tot)
+		devices[n] = vtC19DDevice(vtC19DNode(n), minors, nvf, tot)
 		devIndexer.Add(devices[n])
 	}
 	live := vtC19DNewInst(suit)
@@ -281,7 +318,16 @@ func vtC19DevExec(in []int64) []int64 {
 					res := apiext.DeviceAllocations{}
 					for _, g := range d.groups {
 						for _, e := range g.entries {
-							res[vtC19DTypes[g.typ]] = append(res[vtC19DTypes[g.typ]], &apiext.DeviceAllocation{Minor: int32(e[0]), Resources: vtC19DRes(g.typ, e[1], e[2])})
+							da := &apiext.DeviceAllocation{Minor: int32(e[0]), Resources: vtC19DRes(g.typ, e[1], e[2])}
+							for _, code := range d.vfs[g.typ] {
+								if code/100 == e[0] {
+									if da.Extension == nil {
+										da.Extension = &apiext.DeviceAllocationExtension{}
+									}
+									da.Extension.VirtualFunctions = append(da.Extension.VirtualFunctions, apiext.VirtualFunction{Minor: int(code % 100), BusID: vtC19DBusID(e[0], code%100)})
+								}
+							}
+							res[vtC19DTypes[g.typ]] = append(res[vtC19DTypes[g.typ]], da)
 						}
 					}
 					st.allocationResult = res
@@ -328,7 +374,7 @@ func vtC19DevExec(in []int64) []int64 {
 				life[u] = 4
 			}
 		}
-		obs = vtC19DSnapshot(obs, live, nodes, minors, keys)
+		obs = vtC19DSnapshot(obs, live, nodes, minors, nvf, keys)
 
 		fresh := vtC19DNewInst(suit)
 		seen := make([]bool, np+1)
@@ -369,7 +415,7 @@ func vtC19DevExec(in []int64) []int64 {
 		for n := int64(1); n <= nodes; n++ {
 			deliver(step{4, n})
 		}
-		obs = vtC19DSnapshot(obs, fresh, nodes, minors, keys)
+		obs = vtC19DSnapshot(obs, fresh, nodes, minors, nvf, keys)
 	}
 	return obs
 }
@@ -383,13 +429,17 @@ func vtC19DevGen(r *rand.Rand, i int) (string, []int64) {
 	if style == "device-late" {
 		first = 0
 	}
-	in := []int64{nodes, minors, 100, 100, 100, 0, first, int64(np)}
+	nvf := int64(3)
+	in := []int64{nodes, minors, 100, 100, 100, 0, first, nvf, int64(np)}
+	vfTaken := map[[3]int64]bool{} // (node, minor, index) of the RDMA virtual functions already handed out
 	for u := 1; u <= np; u++ {
 		kind := int64(0)
 		if r.Intn(4) == 0 {
 			kind = 1
 		}
-		in = append(in, kind, int64(1+r.Intn(int(nodes))))
+		node := int64(1 + r.Intn(int(nodes)))
+		in = append(in, kind, node)
+		var vfCodes []int64
 		var groups [][]int64
 		for t := int64(1); t <= 2; t++ {
 			if r.Intn(3) == 0 {
@@ -397,7 +447,7 @@ func vtC19DevGen(r *rand.Rand, i int) (string, []int64) {
 			}
 			g := []int64{t, 0}
 			for m := int64(0); m < minors; m++ {
-				if r.Intn(2) == 0 {
+				if r.Intn(2) == 0 || (t == 2 && m == 0 && r.Intn(3) != 0) {
 					a := int64(1 + r.Intn(100))
 					b := int64(r.Intn(101))
 					if t == 2 {
@@ -405,6 +455,17 @@ func vtC19DevGen(r *rand.Rand, i int) (string, []int64) {
 					}
 					g = append(g, m, a, b)
 					g[1]++
+					if t == 2 { // virtual functions of this PF: mostly one, each VF handed out once per node
+						for want := []int{0, 1, 1, 1, 2}[r.Intn(5)]; want > 0; want-- {
+							for i := int64(0); i < nvf; i++ {
+								if !vfTaken[[3]int64{node, m, i}] {
+									vfTaken[[3]int64{node, m, i}] = true
+									vfCodes = append(vfCodes, m*100+i)
+									break
+								}
+							}
+						}
+					}
 				}
 			}
 			if g[1] > 0 {
@@ -417,6 +478,16 @@ func vtC19DevGen(r *rand.Rand, i int) (string, []int64) {
 		in = append(in, int64(len(groups)))
 		for _, g := range groups {
 			in = append(in, g...)
+		}
+		hasRDMA := false
+		for _, g := range groups {
+			hasRDMA = hasRDMA || g[0] == 2
+		}
+		if hasRDMA && len(vfCodes) > 0 {
+			in = append(in, 1, 2, int64(len(vfCodes)))
+			in = append(in, vfCodes...)
+		} else {
+			in = append(in, 0)
 		}
 	}
 	nops := 3 + r.Intn(9)
